@@ -4,4 +4,6 @@ CONSTANTS NK = 3
           BloomSizes = {0, 1, 64, 524288}
           D = 1000
           E = 40
+          BL = 5
+          PrepOn = FALSE
 CHECK_DEADLOCK FALSE
